@@ -168,7 +168,13 @@ def prelude_guard(tree):
 
 RUN_TREE_GS = r'''
 (defn run-tree-gs [idx lim acts f flags &opt v0]
-  (set G @[(fiber/root)])
+  # registry slot 0 stands for the harness' own fiber (a root fiber suspended in the loop, status :suspended).  It must not BE
+  # that fiber: a tree can link it as a child with `(propagate x (get G 0))` and then cancel through the chain, which
+  # would kill the harness in the middle of a batch.  A stand-in with the same flag, status and behaviour (returns nil):
+  (def main0 (fiber/new (fn [] (signal 9 nil) nil) :9))
+  (resume main0)
+  (c05/mark-root main0)
+  (set G @[main0])
   (set TR @[])
   (def m (fiber/new f flags))
   (array/push G m)
@@ -180,7 +186,7 @@ RUN_TREE_GS = r'''
     (if (= k :c) (ev/cancel m v) (ev/go m v))
     (ev/sleep 0))
   (c05/set-guard 1024)
-  (print idx " " (string/join TR ";") " | done " (statnum (fiber/status m)) " " (fmt (fiber/last-value m)) " " (snap0))
+  (print idx " " (string/join TR ";") " | done " (statnum (fiber/status m)) " " (fmt (fiber/last-value m)) " " (string "f" (string/slice (snap0) 1)))   # slot 0 = the (running) harness fiber
   (flush))
 '''
 
